@@ -1,6 +1,1271 @@
-//! C06 — not implemented yet.
+//! C06 — Compiled predicates are indistinguishable from the interpreter.
+//!
+//! Check `mask` (in-process): a predicate generated INSIDE the compiled subset
+//! (Float64/Int64/Int32/Date32 columns, f64 `+ - * /`, same-type comparisons,
+//! AND/OR/NOT, [NOT] BETWEEN, aliases, no-op f64 casts inside arithmetic,
+//! register pressure around MAX_REGS=24) is compiled with
+//! `CompiledPredicate::compile(expr, schema)` and evaluated on a batch whose
+//! columns are individually sliced (non-zero offsets) and hold NULL / NaN /
+//! -NaN / +-0.0 / +-inf / integer extremes, at lengths around the 1024-row
+//! chunk. Oracle: the engine's interpreter `evaluate_expr(batch, expr)` —
+//! logical validity equal at every row, value equal at every valid row.
+//! `compile == None` and `evaluate == None` are trivial (counted) cases.
+//!
+//! Check `qe_compile_switch` (sub-process): the same data and predicates are
+//! run through FilterExec, `ctx.sql` over a memory table and `ctx.sql` over a
+//! Parquet registration in two worker processes, one with QE_COMPILE=0 and one
+//! with QE_COMPILE unset (the switch is read once per process); the row
+//! multisets must be equal.
+//!
+//! Known finding `compiled-f64-ieee-vs-total-order`: the compiled path compares
+//! f64 with IEEE `PartialOrd`, the interpreter's arrow kernels with the IEEE
+//! totalOrder predicate; they disagree exactly when a Float64 comparison sees a
+//! NaN operand or +0.0 against -0.0. The signature predicate below is evaluated
+//! per mismatching row; any mismatch it does not explain is a plain failure.
+//!
+//! Known finding `arithmetic-nan-sign-under-total-order`: when a Float64
+//! comparison operand is a NaN PRODUCED BY ARITHMETIC (e.g. `NaN + f0` with f0 a
+//! NaN of the other sign), its sign bit depends on which arrow kernel code path
+//! computed it (array length / position), and totalOrder comparisons expose that
+//! bit. The compiled path re-evaluates NULL-input rows through the interpreter
+//! on a gathered sub-batch, the interpreter evaluates the full batch: the two
+//! can disagree in value AND validity (`NULL AND x`). It persists with the
+//! fix for the first finding applied.
 use super::Property;
+use crate::data::{self, ColType, Table, TempDir, Value};
+use crate::engine;
+use crate::runner::*;
+use arrow::array::*;
+use arrow::datatypes::{DataType, Field, Schema};
+use arrow::record_batch::RecordBatch;
+use proptest::prelude::*;
+use query_engine::physical::compiled_expr::CompiledPredicate;
+use query_engine::physical::operators::{evaluate_expr, FilterExec, MemoryTableExec};
+use query_engine::physical::PhysicalOperator;
+use query_engine::planner::{BinaryOp, Column, Expr, ScalarValue, UnaryOp};
+use serde::{Deserialize, Serialize};
+use std::sync::Arc;
+
+pub const KF_FLOAT: &str = "compiled-f64-ieee-vs-total-order";
+pub const KF_NANSIGN: &str = "arithmetic-nan-sign-under-total-order";
+
+// ---------------------------------------------------------------------------
+// fixed schema: 3 x Float64, 2 x Int64, 2 x Int32, 2 x Date32
+// ---------------------------------------------------------------------------
+#[derive(Clone, Copy, Debug, PartialEq, Eq, Serialize, Deserialize)]
+pub enum Ty {
+    F64,
+    I64,
+    I32,
+    Date,
+}
+pub const COLS: [(&str, Ty); 9] = [
+    ("f0", Ty::F64),
+    ("f1", Ty::F64),
+    ("f2", Ty::F64),
+    ("k0", Ty::I64),
+    ("k1", Ty::I64),
+    ("i0", Ty::I32),
+    ("i1", Ty::I32),
+    ("d0", Ty::Date),
+    ("d1", Ty::Date),
+];
+fn cols_of(t: Ty) -> Vec<u8> {
+    COLS.iter()
+        .enumerate()
+        .filter(|(_, c)| c.1 == t)
+        .map(|(i, _)| i as u8)
+        .collect()
+}
+fn arrow_ty(t: Ty) -> DataType {
+    match t {
+        Ty::F64 => DataType::Float64,
+        Ty::I64 => DataType::Int64,
+        Ty::I32 => DataType::Int32,
+        Ty::Date => DataType::Date32,
+    }
+}
+
+/// Library-independent predicate AST. `F` holds the f64 BIT PATTERN (as i64)
+/// so NaN payloads / -0.0 survive JSON.
+#[derive(Clone, Debug, Serialize, Deserialize, PartialEq)]
+pub enum E {
+    Col(u8),
+    F(i64),
+    I64(i64),
+    I32(i32),
+    D(i32),
+    Bin(Op, Box<E>, Box<E>),
+    Not(Box<E>),
+    Between(Box<E>, Box<E>, Box<E>, bool),
+    Alias(Box<E>),
+    CastF(Box<E>),
+}
+#[derive(Clone, Copy, Debug, Serialize, Deserialize, PartialEq, Eq)]
+pub enum Op {
+    Eq,
+    Ne,
+    Lt,
+    Le,
+    Gt,
+    Ge,
+    And,
+    Or,
+    Add,
+    Sub,
+    Mul,
+    Div,
+}
+impl Op {
+    fn engine(self) -> BinaryOp {
+        match self {
+            Op::Eq => BinaryOp::Eq,
+            Op::Ne => BinaryOp::NotEq,
+            Op::Lt => BinaryOp::Lt,
+            Op::Le => BinaryOp::LtEq,
+            Op::Gt => BinaryOp::Gt,
+            Op::Ge => BinaryOp::GtEq,
+            Op::And => BinaryOp::And,
+            Op::Or => BinaryOp::Or,
+            Op::Add => BinaryOp::Add,
+            Op::Sub => BinaryOp::Subtract,
+            Op::Mul => BinaryOp::Multiply,
+            Op::Div => BinaryOp::Divide,
+        }
+    }
+    fn sql(self) -> &'static str {
+        match self {
+            Op::Eq => "=",
+            Op::Ne => "<>",
+            Op::Lt => "<",
+            Op::Le => "<=",
+            Op::Gt => ">",
+            Op::Ge => ">=",
+            Op::And => "AND",
+            Op::Or => "OR",
+            Op::Add => "+",
+            Op::Sub => "-",
+            Op::Mul => "*",
+            Op::Div => "/",
+        }
+    }
+    fn is_cmp(self) -> bool {
+        matches!(self, Op::Eq | Op::Ne | Op::Lt | Op::Le | Op::Gt | Op::Ge)
+    }
+    fn is_arith(self) -> bool {
+        matches!(self, Op::Add | Op::Sub | Op::Mul | Op::Div)
+    }
+}
+
+/// How column references / field names are spelled.
+/// 0: field "f0", ref f0 | 1: field "t.f0", ref t.f0 | 2: field "t.f0", ref f0 | 3: field "f0", ref t.f0
+fn field_name(mode: u8, c: usize) -> String {
+    if mode == 1 || mode == 2 {
+        format!("t.{}", COLS[c].0)
+    } else {
+        COLS[c].0.to_string()
+    }
+}
+fn col_ref(mode: u8, c: usize) -> Column {
+    if mode == 1 || mode == 3 {
+        Column::new_qualified("t", COLS[c].0)
+    } else {
+        Column::new(COLS[c].0)
+    }
+}
+
+pub fn to_expr(e: &E, mode: u8) -> Expr {
+    match e {
+        E::Col(c) => Expr::Column(col_ref(mode, *c as usize)),
+        E::F(b) => Expr::Literal(ScalarValue::Float64(f64::from_bits(*b as u64).into())),
+        E::I64(v) => Expr::Literal(ScalarValue::Int64(*v)),
+        E::I32(v) => Expr::Literal(ScalarValue::Int32(*v)),
+        E::D(v) => Expr::Literal(ScalarValue::Date32(*v)),
+        E::Bin(op, l, r) => Expr::BinaryExpr {
+            left: Box::new(to_expr(l, mode)),
+            op: op.engine(),
+            right: Box::new(to_expr(r, mode)),
+        },
+        E::Not(x) => Expr::UnaryExpr { op: UnaryOp::Not, expr: Box::new(to_expr(x, mode)) },
+        E::Between(x, lo, hi, neg) => Expr::Between {
+            expr: Box::new(to_expr(x, mode)),
+            low: Box::new(to_expr(lo, mode)),
+            high: Box::new(to_expr(hi, mode)),
+            negated: *neg,
+        },
+        E::Alias(x) => Expr::Alias { expr: Box::new(to_expr(x, mode)), name: "al".into() },
+        E::CastF(x) => Expr::Cast { expr: Box::new(to_expr(x, mode)), data_type: DataType::Float64 },
+    }
+}
+
+/// SQL rendering; None when a literal has no SQL spelling (NaN/inf/-0.0) — those predicates are then only run through FilterExec.
+pub fn to_sql(e: &E) -> Option<String> {
+    Some(match e {
+        E::Col(c) => COLS[*c as usize].0.to_string(),
+        E::F(b) => {
+            let v = f64::from_bits(*b as u64);
+            if !v.is_finite() || (v == 0.0 && v.is_sign_negative()) {
+                return None;
+            }
+            Value::Double(v).sql()
+        }
+        E::I64(v) => {
+            if *v == i64::MIN {
+                return None;
+            }
+            Value::Int(*v).sql()
+        }
+        E::I32(v) => Value::Int(*v as i64).sql(),
+        E::D(v) => {
+            if *v < -700000 || *v > 2900000 {
+                return None;
+            }
+            Value::Date(*v).sql()
+        }
+        E::Bin(op, l, r) => format!("({} {} {})", to_sql(l)?, op.sql(), to_sql(r)?),
+        E::Not(x) => format!("(NOT {})", to_sql(x)?),
+        E::Between(x, lo, hi, neg) => format!(
+            "({} {}BETWEEN {} AND {})",
+            to_sql(x)?,
+            if *neg { "NOT " } else { "" },
+            to_sql(lo)?,
+            to_sql(hi)?
+        ),
+        E::Alias(x) => to_sql(x)?,
+        E::CastF(x) => format!("CAST({} AS DOUBLE)", to_sql(x)?),
+    })
+}
+
+fn collect_cols(e: &E, out: &mut Vec<u8>) {
+    match e {
+        E::Col(c) => {
+            if !out.contains(c) {
+                out.push(*c)
+            }
+        }
+        E::Bin(_, l, r) => {
+            collect_cols(l, out);
+            collect_cols(r, out);
+        }
+        E::Not(x) | E::Alias(x) | E::CastF(x) => collect_cols(x, out),
+        E::Between(x, lo, hi, _) => {
+            collect_cols(x, out);
+            collect_cols(lo, out);
+            collect_cols(hi, out);
+        }
+        _ => {}
+    }
+}
+
+// ---------------------------------------------------------------------------
+// compact, self-contained column data
+// ---------------------------------------------------------------------------
+/// Row i of a column = palette[pattern[i % pattern.len()] % palette.len()].
+/// Palette entries: None = NULL; Some(x): for F64 columns x is the f64 bit
+/// pattern, for I64 the value, for I32/Date the value (truncated to i32).
+#[derive(Clone, Debug, Serialize, Deserialize, PartialEq)]
+pub struct ColData {
+    pub palette: Vec<Option<i64>>,
+    pub pattern: Vec<u8>,
+    /// the arrow array is built longer and sliced at this offset
+    pub offset: u8,
+}
+impl ColData {
+    pub fn at(&self, i: usize) -> Option<i64> {
+        if self.palette.is_empty() || self.pattern.is_empty() {
+            return None;
+        }
+        self.palette[self.pattern[i % self.pattern.len()] as usize % self.palette.len()]
+    }
+}
+
+fn build_array(ty: Ty, d: &ColData, len: usize, sliced: bool) -> ArrayRef {
+    let off = if sliced { d.offset as usize } else { 0 };
+    let pad = if sliced { (d.offset as usize) % 3 } else { 0 };
+    let total = off + len + pad;
+    let has_null = d.palette.iter().any(|p| p.is_none()) || d.palette.is_empty();
+    // the padding rows (outside the slice) are NULL when the column can hold
+    // NULLs: the slice may then have a null buffer but null_count()==0
+    let v = |j: usize| -> Option<i64> {
+        if j < off || j >= off + len {
+            if has_null {
+                None
+            } else {
+                d.at(j)
+            }
+        } else {
+            d.at(j - off)
+        }
+    };
+    let arr: ArrayRef = match ty {
+        Ty::F64 => {
+            if has_null {
+                Arc::new(Float64Array::from(
+                    (0..total).map(|j| v(j).map(|b| f64::from_bits(b as u64))).collect::<Vec<_>>(),
+                ))
+            } else {
+                Arc::new(Float64Array::from(
+                    (0..total).map(|j| f64::from_bits(v(j).unwrap() as u64)).collect::<Vec<_>>(),
+                ))
+            }
+        }
+        Ty::I64 => {
+            if has_null {
+                Arc::new(Int64Array::from((0..total).map(v).collect::<Vec<_>>()))
+            } else {
+                Arc::new(Int64Array::from((0..total).map(|j| v(j).unwrap()).collect::<Vec<_>>()))
+            }
+        }
+        Ty::I32 => {
+            if has_null {
+                Arc::new(Int32Array::from((0..total).map(|j| v(j).map(|x| x as i32)).collect::<Vec<_>>()))
+            } else {
+                Arc::new(Int32Array::from((0..total).map(|j| v(j).unwrap() as i32).collect::<Vec<_>>()))
+            }
+        }
+        Ty::Date => {
+            if has_null {
+                Arc::new(Date32Array::from((0..total).map(|j| v(j).map(|x| x as i32)).collect::<Vec<_>>()))
+            } else {
+                Arc::new(Date32Array::from((0..total).map(|j| v(j).unwrap() as i32).collect::<Vec<_>>()))
+            }
+        }
+    };
+    if off == 0 && pad == 0 {
+        arr
+    } else {
+        arr.slice(off, len)
+    }
+}
+
+fn build_batch(cols: &[ColData], len: usize, mode: u8, sliced: bool) -> RecordBatch {
+    let schema = Arc::new(Schema::new(
+        (0..COLS.len())
+            .map(|c| Field::new(field_name(mode, c), arrow_ty(COLS[c].1), true))
+            .collect::<Vec<_>>(),
+    ));
+    let arrays: Vec<ArrayRef> = (0..COLS.len()).map(|c| build_array(COLS[c].1, &cols[c], len, sliced)).collect();
+    RecordBatch::try_new(schema, arrays).unwrap()
+}
+
+// ---------------------------------------------------------------------------
+// row-level model pieces used ONLY by the known-finding signature
+// ---------------------------------------------------------------------------
+fn side_type(e: &E) -> Option<Ty> {
+    match e {
+        E::Col(c) => Some(COLS[*c as usize].1),
+        E::F(_) => Some(Ty::F64),
+        E::I64(_) => Some(Ty::I64),
+        E::I32(_) => Some(Ty::I32),
+        E::D(_) => Some(Ty::Date),
+        E::Alias(x) => side_type(x),
+        E::CastF(_) => Some(Ty::F64),
+        E::Bin(op, ..) if op.is_arith() => Some(Ty::F64),
+        _ => None,
+    }
+}
+/// f64 value of a numeric side at a row (None = NULL or not f64-valued)
+fn num_at(e: &E, row: &dyn Fn(u8) -> Option<i64>) -> Option<f64> {
+    match e {
+        E::Col(c) => {
+            if COLS[*c as usize].1 != Ty::F64 {
+                return None;
+            }
+            row(*c).map(|b| f64::from_bits(b as u64))
+        }
+        E::F(b) => Some(f64::from_bits(*b as u64)),
+        E::Alias(x) | E::CastF(x) => num_at(x, row),
+        E::Bin(op, l, r) if op.is_arith() => {
+            let (a, b) = (num_at(l, row)?, num_at(r, row)?);
+            Some(match op {
+                Op::Add => a + b,
+                Op::Sub => a - b,
+                Op::Mul => a * b,
+                _ => a / b,
+            })
+        }
+        _ => None,
+    }
+}
+fn float_ambiguous_pair(a: f64, b: f64) -> bool {
+    a.is_nan() || b.is_nan() || (a == 0.0 && b == 0.0 && a.is_sign_negative() != b.is_sign_negative())
+}
+/// Signature of KF_FLOAT at one row: some Float64 comparison in `e` has a NaN
+/// operand or compares +0.0 with -0.0 at that row.
+pub fn row_float_ambiguous(e: &E, row: &dyn Fn(u8) -> Option<i64>) -> bool {
+    match e {
+        E::Bin(op, l, r) if op.is_cmp() => {
+            if side_type(l) == Some(Ty::F64) && side_type(r) == Some(Ty::F64) {
+                if let (Some(a), Some(b)) = (num_at(l, row), num_at(r, row)) {
+                    return float_ambiguous_pair(a, b);
+                }
+            }
+            false
+        }
+        E::Bin(_, l, r) => row_float_ambiguous(l, row) || row_float_ambiguous(r, row),
+        E::Not(x) | E::Alias(x) | E::CastF(x) => row_float_ambiguous(x, row),
+        E::Between(x, lo, hi, _) => {
+            if side_type(x) == Some(Ty::F64) {
+                if let Some(a) = num_at(x, row) {
+                    for s in [lo, hi] {
+                        if side_type(s) == Some(Ty::F64) {
+                            if let Some(b) = num_at(s, row) {
+                                if float_ambiguous_pair(a, b) {
+                                    return true;
+                                }
+                            }
+                        }
+                    }
+                }
+            }
+            false
+        }
+        _ => false,
+    }
+}
+
+/// Signature of KF_NANSIGN at one row: some Float64 comparison has an operand
+/// that is an arithmetic expression evaluating to NaN at that row.
+pub fn row_arith_nan(e: &E, row: &dyn Fn(u8) -> Option<i64>) -> bool {
+    fn strip(e: &E) -> &E {
+        match e {
+            E::Alias(x) | E::CastF(x) => strip(x),
+            o => o,
+        }
+    }
+    fn side_is_arith_nan(s: &E, row: &dyn Fn(u8) -> Option<i64>) -> bool {
+        matches!(strip(s), E::Bin(op, ..) if op.is_arith()) && num_at(s, row).map(|v| v.is_nan()).unwrap_or(false)
+    }
+    match e {
+        E::Bin(op, l, r) if op.is_cmp() => side_is_arith_nan(l, row) || side_is_arith_nan(r, row),
+        E::Bin(_, l, r) => row_arith_nan(l, row) || row_arith_nan(r, row),
+        E::Not(x) | E::Alias(x) | E::CastF(x) => row_arith_nan(x, row),
+        E::Between(x, lo, hi, _) => [x, lo, hi].iter().any(|s| side_is_arith_nan(s, row)),
+        _ => false,
+    }
+}
+
+/// registers compile() will need: (F registers, M registers) — label only
+fn f_need(e: &E) -> usize {
+    match e {
+        E::Col(_) | E::F(_) | E::I64(_) | E::I32(_) | E::D(_) => 1,
+        E::Alias(x) | E::CastF(x) => f_need(x),
+        E::Bin(_, l, r) => 1 + f_need(l) + f_need(r),
+        _ => 0,
+    }
+}
+fn side_f_need(e: &E) -> usize {
+    match e {
+        E::Alias(x) => side_f_need(x),
+        E::Bin(op, ..) if op.is_arith() => f_need(e),
+        _ => 0,
+    }
+}
+fn reg_need(e: &E) -> (usize, usize) {
+    match e {
+        E::Bin(op, l, r) if op.is_cmp() => (side_f_need(l) + side_f_need(r), 1),
+        E::Bin(_, l, r) => {
+            let (a, b) = (reg_need(l), reg_need(r));
+            (a.0 + b.0, a.1 + b.1 + 1)
+        }
+        E::Not(x) => {
+            let a = reg_need(x);
+            (a.0, a.1 + 1)
+        }
+        E::Alias(x) => reg_need(x),
+        E::Between(x, lo, hi, neg) => (
+            2 * side_f_need(x) + side_f_need(lo) + side_f_need(hi),
+            3 + *neg as usize,
+        ),
+        _ => (0, 0),
+    }
+}
+fn has_mixed(e: &E) -> bool {
+    match e {
+        E::Bin(op, l, r) if op.is_cmp() => side_type(l) != side_type(r),
+        E::Bin(_, l, r) => has_mixed(l) || has_mixed(r),
+        E::Not(x) | E::Alias(x) => has_mixed(x),
+        E::Between(x, lo, hi, _) => side_type(x) != side_type(lo) || side_type(x) != side_type(hi),
+        _ => false,
+    }
+}
+
+// ---------------------------------------------------------------------------
+// generators
+// ---------------------------------------------------------------------------
+fn fb(v: f64) -> i64 {
+    v.to_bits() as i64
+}
+/// plain f64 values: finite, moderate magnitude, no -0.0 (products of a few
+/// of them stay finite)
+fn f64_plain() -> BoxedStrategy<i64> {
+    prop_oneof![
+        4 => (-8i64..9).prop_map(|k| fb(k as f64 * 0.25)),
+        2 => prop_oneof![Just(0.1), Just(0.2), Just(0.3), Just(0.30000000000000004), Just(1e10), Just(-1e10), Just(3.0), Just(1e-10)]
+            .prop_map(fb),
+        1 => (-1.0e6f64..1.0e6).prop_map(fb),
+    ]
+    .boxed()
+}
+fn f64_special() -> BoxedStrategy<i64> {
+    prop_oneof![
+        3 => Just(fb(f64::NAN)),
+        1 => Just(fb(-f64::NAN)),
+        3 => Just(fb(-0.0)),
+        2 => Just(fb(0.0)),
+        2 => Just(fb(f64::INFINITY)),
+        2 => Just(fb(f64::NEG_INFINITY)),
+        1 => Just(fb(f64::MAX)),
+        1 => Just(fb(f64::MIN)),
+        1 => Just(fb(f64::MIN_POSITIVE)),
+        1 => Just(fb(5e-324)),
+        1 => Just(fb(9007199254740992.0)),
+        1 => Just(fb(9007199254740994.0)),
+        1 => any::<i64>(), // arbitrary bit pattern (NaN payloads, subnormals)
+    ]
+    .boxed()
+}
+fn f64_val(special: bool) -> BoxedStrategy<i64> {
+    if special {
+        prop_oneof![3 => f64_special(), 2 => f64_plain()].boxed()
+    } else {
+        f64_plain()
+    }
+}
+fn i64_val(wide: bool) -> BoxedStrategy<i64> {
+    if !wide {
+        // |v| <= 2^61: `max - min` of a row group cannot overflow i64 (the
+        // Parquet registration's ndv estimate panics on that in debug builds;
+        // that is C18's subject, not C06's)
+        return prop_oneof![
+            5 => -2i64..6,
+            1 => Just(1i64 << 61),
+            1 => Just(-(1i64 << 61)),
+            1 => Just(1i64 << 53),
+            1 => Just((1i64 << 53) + 1),
+            1 => Just(i32::MAX as i64 + 1),
+            1 => any::<i64>().prop_map(|v| v >> 2),
+        ]
+        .boxed();
+    }
+    prop_oneof![
+        5 => -2i64..6,
+        1 => Just(i64::MIN),
+        1 => Just(i64::MAX),
+        1 => Just(i64::MAX - 1),
+        1 => Just(i64::MIN + 1),
+        1 => Just(1i64 << 53),
+        1 => Just((1i64 << 53) + 1),
+        1 => Just(i32::MAX as i64 + 1),
+        1 => any::<i64>(),
+    ]
+    .boxed()
+}
+fn i32_val() -> BoxedStrategy<i64> {
+    prop_oneof![
+        5 => -2i64..6,
+        1 => Just(i32::MIN as i64),
+        1 => Just(i32::MAX as i64),
+        1 => Just(i32::MAX as i64 - 1),
+        1 => Just(i32::MIN as i64 + 1),
+        1 => any::<i32>().prop_map(|x| x as i64),
+    ]
+    .boxed()
+}
+fn date_val() -> BoxedStrategy<i64> {
+    prop_oneof![
+        5 => (0i64..6).prop_map(|d| 10957 + d),
+        1 => Just(0i64),
+        1 => Just(-1i64),
+        1 => Just(i32::MIN as i64),
+        1 => Just(i32::MAX as i64),
+        1 => (-20000i64..40000),
+    ]
+    .boxed()
+}
+/// generator profile: `special` = float specials (NaN/-0.0/inf/extremes) in
+/// literals and data; `wide` = i64 extremes allowed
+#[derive(Clone, Copy, Debug)]
+pub struct Prof {
+    pub special: bool,
+    pub wide: bool,
+}
+fn val_of(t: Ty, p: Prof) -> BoxedStrategy<i64> {
+    match t {
+        Ty::F64 => f64_val(p.special),
+        Ty::I64 => i64_val(p.wide),
+        Ty::I32 => i32_val(),
+        Ty::Date => date_val(),
+    }
+}
+fn lit_of(t: Ty, p: Prof) -> BoxedStrategy<E> {
+    match t {
+        Ty::F64 => f64_val(p.special).prop_map(E::F).boxed(),
+        Ty::I64 => i64_val(p.wide).prop_map(E::I64).boxed(),
+        Ty::I32 => i32_val().prop_map(|v| E::I32(v as i32)).boxed(),
+        Ty::Date => date_val().prop_map(|v| E::D(v as i32)).boxed(),
+    }
+}
+fn col_of(t: Ty) -> BoxedStrategy<E> {
+    proptest::sample::select(cols_of(t)).prop_map(E::Col).boxed()
+}
+fn maybe_alias(s: BoxedStrategy<E>) -> BoxedStrategy<E> {
+    (s, 0u8..10).prop_map(|(e, k)| if k == 0 { E::Alias(Box::new(e)) } else { e }).boxed()
+}
+fn arith_op() -> BoxedStrategy<Op> {
+    prop_oneof![3 => Just(Op::Add), 3 => Just(Op::Sub), 3 => Just(Op::Mul), 2 => Just(Op::Div)].boxed()
+}
+fn cmp_op() -> BoxedStrategy<Op> {
+    prop_oneof![Just(Op::Eq), Just(Op::Ne), Just(Op::Lt), Just(Op::Le), Just(Op::Gt), Just(Op::Ge)].boxed()
+}
+/// f64 arithmetic tree (always has an arithmetic operator at the root)
+fn arith(depth: u32, p: Prof) -> BoxedStrategy<E> {
+    let leaf = prop_oneof![3 => col_of(Ty::F64), 2 => lit_of(Ty::F64, p)].boxed();
+    let operand = if depth == 0 {
+        leaf
+    } else {
+        prop_oneof![3 => leaf, 2 => arith(depth - 1, p)].boxed()
+    };
+    let operand = (operand, 0u8..12)
+        .prop_map(|(e, k)| match k {
+            0 => E::Alias(Box::new(e)),
+            1 => E::CastF(Box::new(e)),
+            _ => e,
+        })
+        .boxed();
+    (arith_op(), operand.clone(), operand).prop_map(|(op, a, b)| E::Bin(op, Box::new(a), Box::new(b))).boxed()
+}
+/// left-deep arithmetic chain with `n` leaves (register pressure on F regs)
+fn arith_chain(p: Prof) -> BoxedStrategy<E> {
+    let leaf = prop_oneof![3 => col_of(Ty::F64), 2 => lit_of(Ty::F64, p)];
+    (proptest::collection::vec((leaf, arith_op()), 2..15)).prop_map(|v| {
+        let mut it = v.into_iter();
+        let mut acc = it.next().unwrap().0;
+        for (l, op) in it {
+            acc = E::Bin(op, Box::new(acc), Box::new(l));
+        }
+        acc
+    })
+    .boxed()
+}
+fn side(t: Ty, p: Prof) -> BoxedStrategy<E> {
+    let base = match t {
+        Ty::F64 => prop_oneof![
+            10 => col_of(t),
+            8 => lit_of(t, p),
+            5 => arith(1, p),
+            2 => arith(2, p),
+            1 => arith_chain(p),
+        ]
+        .boxed(),
+        _ => prop_oneof![3 => col_of(t), 2 => lit_of(t, p)].boxed(),
+    };
+    maybe_alias(base)
+}
+fn any_ty() -> BoxedStrategy<Ty> {
+    prop_oneof![5 => Just(Ty::F64), 2 => Just(Ty::I64), 2 => Just(Ty::I32), 2 => Just(Ty::Date)].boxed()
+}
+fn leaf_pred(p: Prof) -> BoxedStrategy<E> {
+    let cmp = (any_ty(), cmp_op())
+        .prop_flat_map(move |(t, op)| {
+            (side(t, p), side(t, p)).prop_map(move |(a, b)| E::Bin(op, Box::new(a), Box::new(b)))
+        })
+        .boxed();
+    let between = any_ty()
+        .prop_flat_map(move |t| {
+            (side(t, p), side(t, p), side(t, p), any::<bool>())
+                .prop_map(|(x, lo, hi, n)| E::Between(Box::new(x), Box::new(lo), Box::new(hi), n))
+        })
+        .boxed();
+    prop_oneof![12 => cmp, 4 => between].boxed()
+}
+/// out-of-subset: a mixed-type comparison (the interpreter coerces; compile must decline)
+fn mixed_pred(p: Prof) -> BoxedStrategy<E> {
+    let mixed = (cmp_op(), col_of(Ty::I64), lit_of(Ty::F64, Prof { special: false, wide: p.wide }))
+        .prop_map(|(op, a, b)| E::Bin(op, Box::new(a), Box::new(b)));
+    (mixed, pred(1, p), any::<bool>())
+        .prop_map(|(m, p, and)| E::Bin(if and { Op::And } else { Op::Or }, Box::new(p), Box::new(m)))
+        .boxed()
+}
+fn pred(depth: u32, p: Prof) -> BoxedStrategy<E> {
+    if depth == 0 {
+        return leaf_pred(p);
+    }
+    let sub = pred(depth - 1, p);
+    prop_oneof![
+        4 => leaf_pred(p),
+        3 => (sub.clone(), sub.clone()).prop_map(|(a, b)| E::Bin(Op::And, Box::new(a), Box::new(b))),
+        3 => (sub.clone(), sub.clone()).prop_map(|(a, b)| E::Bin(Op::Or, Box::new(a), Box::new(b))),
+        2 => sub.clone().prop_map(|a| E::Not(Box::new(a))),
+        1 => sub.prop_map(|a| E::Alias(Box::new(a))),
+    ]
+    .boxed()
+}
+/// AND/OR chain of n leaves: M-register pressure (2n-1 registers; 12 leaves fit, 13 do not)
+fn pred_chain(p: Prof) -> BoxedStrategy<E> {
+    proptest::collection::vec((leaf_pred(p), any::<bool>()), 8..16)
+        .prop_map(|v| {
+            let mut it = v.into_iter();
+            let mut acc = it.next().unwrap().0;
+            for (l, and) in it {
+                acc = E::Bin(if and { Op::And } else { Op::Or }, Box::new(acc), Box::new(l));
+            }
+            acc
+        })
+        .boxed()
+}
+fn predicate(p: Prof) -> BoxedStrategy<E> {
+    prop_oneof![24 => pred(3, p), 3 => pred_chain(p), 1 => mixed_pred(p)].boxed()
+}
+
+fn col_data(t: Ty, p: Prof) -> BoxedStrategy<ColData> {
+    let entry = prop_oneof![1 => Just(None), 4 => val_of(t, p).prop_map(Some)];
+    (
+        prop_oneof![
+            6 => proptest::collection::vec(entry, 1..7),
+            1 => Just(vec![None]),
+        ],
+        proptest::collection::vec(0u8..8, 1..38),
+        prop_oneof![2 => Just(0u8), 3 => 1u8..80],
+    )
+        .prop_map(|(palette, pattern, offset)| ColData { palette, pattern, offset })
+        .boxed()
+}
+fn all_cols(p: Prof) -> BoxedStrategy<Vec<ColData>> {
+    let v: Vec<BoxedStrategy<ColData>> = COLS.iter().map(|c| col_data(c.1, p)).collect();
+    v.boxed()
+}
+fn len_strategy(tier: Tier) -> BoxedStrategy<usize> {
+    let big = tier.pick(3200usize, 9000usize);
+    prop_oneof![
+        1 => Just(0usize),
+        1 => Just(1usize),
+        2 => 2usize..70,
+        2 => Just(1023usize),
+        2 => Just(1024usize),
+        2 => Just(1025usize),
+        1 => 1016usize..1034,
+        1 => Just(2047usize),
+        2 => Just(2048usize),
+        2 => Just(2049usize),
+        2 => 3000usize..big,
+    ]
+    .boxed()
+}
+
+// ---------------------------------------------------------------------------
+// check 1: compiled mask vs interpreted mask
+// ---------------------------------------------------------------------------
+#[derive(Clone, Debug, Serialize, Deserialize)]
+pub struct MaskCase {
+    pub pred: E,
+    pub cols: Vec<ColData>,
+    pub len: usize,
+    /// column-name spelling mode (see `field_name`)
+    pub mode: u8,
+}
+
+fn fmt_cell(t: Ty, v: Option<i64>) -> String {
+    match (t, v) {
+        (_, None) => "NULL".into(),
+        (Ty::F64, Some(b)) => format!("{:?}", f64::from_bits(b as u64)),
+        (Ty::I64, Some(x)) => x.to_string(),
+        (_, Some(x)) => (x as i32).to_string(),
+    }
+}
+fn describe_row(e: &E, cols: &[ColData], r: usize) -> String {
+    let mut used = vec![];
+    collect_cols(e, &mut used);
+    used.iter()
+        .map(|c| format!("{}={}", COLS[*c as usize].0, fmt_cell(COLS[*c as usize].1, cols[*c as usize].at(r))))
+        .collect::<Vec<_>>()
+        .join(", ")
+}
+fn is_special_cell(t: Ty, v: Option<i64>) -> bool {
+    match (t, v) {
+        (_, None) => true,
+        (Ty::F64, Some(b)) => {
+            let f = f64::from_bits(b as u64);
+            f.is_nan() || f.is_infinite() || (f == 0.0 && f.is_sign_negative())
+        }
+        _ => false,
+    }
+}
+
+pub struct Mask;
+impl Check for Mask {
+    type Case = MaskCase;
+    fn name(&self) -> &'static str {
+        "mask"
+    }
+    fn rule(&self) -> &'static str {
+        "the predicate compiled and evaluated on the compiled path, and (a referenced column holds NULL/NaN/-0.0/+-inf within the batch, or the batch is longer than one 1024-row chunk)"
+    }
+    fn cases(&self, tier: Tier) -> u32 {
+        tier.pick(30_000, 1_000_000)
+    }
+    fn strategy(&self, tier: Tier) -> BoxedStrategy<MaskCase> {
+        // 30 % of the cases draw from the float-special pool (where the open
+        // finding lives), the rest keep NaN / -0.0 / inf out of literals and
+        // data so the search continues behind it.
+        prop_oneof![7 => Just(false), 3 => Just(true)]
+            .prop_flat_map(move |special| {
+                let p = Prof { special, wide: true };
+                (
+                    predicate(p),
+                    all_cols(p),
+                    len_strategy(tier),
+                    prop_oneof![5 => Just(0u8), 1 => Just(1u8), 1 => Just(2u8), 1 => Just(3u8)],
+                )
+            })
+            .prop_map(|(pred, cols, len, mode)| MaskCase { pred, cols, len, mode })
+            .boxed()
+    }
+    fn test(&self, c: &MaskCase, obs: &mut Obs) -> Verdict {
+        if c.cols.len() != COLS.len() {
+            return Verdict::Discard("case has wrong column count".into());
+        }
+        let batch = build_batch(&c.cols, c.len, c.mode, true);
+        let expr = to_expr(&c.pred, c.mode);
+        let compiled = match CompiledPredicate::compile(&expr, &batch.schema()) {
+            Some(p) => p,
+            None => {
+                obs.label("compile=None");
+                let (f, m) = reg_need(&c.pred);
+                if has_mixed(&c.pred) {
+                    obs.label("declined:mixed-type-comparison");
+                } else if f > 24 || m > 24 {
+                    obs.label("declined:needs>24-registers");
+                } else {
+                    obs.label("declined:other");
+                }
+                return Verdict::Pass;
+            }
+        };
+        obs.label("compiled");
+        {
+            let (f, m) = reg_need(&c.pred);
+            if f >= 20 || m >= 20 {
+                obs.label("compiled:20..24-registers");
+            }
+        }
+        let got = match compiled.evaluate(&batch) {
+            Some(m) => m,
+            None => {
+                obs.label("evaluate=None");
+                return Verdict::Pass;
+            }
+        };
+        let want_arr = match evaluate_expr(&batch, &expr) {
+            Ok(a) => a,
+            Err(e) => {
+                return Verdict::Fail(format!(
+                    "compiled path produced a mask but the interpreter fails: {} ; predicate {}",
+                    e, expr
+                ))
+            }
+        };
+        let want = match want_arr.as_any().downcast_ref::<BooleanArray>() {
+            Some(b) => b.clone(),
+            None => {
+                return Verdict::Fail(format!(
+                    "interpreter result is {:?}, not boolean, for a predicate the compiler accepted: {}",
+                    want_arr.data_type(),
+                    expr
+                ))
+            }
+        };
+        // non-triviality
+        let mut used = vec![];
+        collect_cols(&c.pred, &mut used);
+        let period_rows = c.len.min(40 * 8);
+        let special_in_batch = used.iter().any(|cidx| {
+            let cd = &c.cols[*cidx as usize];
+            (0..period_rows).any(|r| is_special_cell(COLS[*cidx as usize].1, cd.at(r)))
+        });
+        if special_in_batch {
+            obs.label("special-value-in-referenced-column");
+        }
+        if c.len > 1024 {
+            obs.label("multi-chunk");
+        }
+        if c.len % 8 != 0 {
+            obs.label("tail-bits");
+        }
+        obs.nontrivial(special_in_batch || c.len > 1024);
+
+        if got.len() != c.len || want.len() != c.len {
+            return Verdict::Fail(format!(
+                "mask lengths: compiled {} interpreted {} batch {} ; predicate {}",
+                got.len(),
+                want.len(),
+                c.len,
+                expr
+            ));
+        }
+        let row_at = |r: usize| {
+            let cols = &c.cols;
+            move |cidx: u8| cols[cidx as usize].at(r)
+        };
+        let mut known: Option<(&'static str, String)> = None;
+        for r in 0..c.len {
+            let (gv, wv) = (got.is_valid(r), want.is_valid(r));
+            if gv != wv {
+                let msg = format!(
+                    "validity differs at row {} of {}: compiled {} interpreted {} ; predicate {} ; row {}",
+                    r,
+                    c.len,
+                    if gv { "valid" } else { "NULL" },
+                    if wv { "valid" } else { "NULL" },
+                    expr,
+                    describe_row(&c.pred, &c.cols, r)
+                );
+                if row_arith_nan(&c.pred, &row_at(r)) {
+                    if known.as_ref().map(|k| k.0 != KF_NANSIGN).unwrap_or(true) {
+                        known = Some((KF_NANSIGN, msg));
+                    }
+                    continue;
+                }
+                return Verdict::Fail(msg);
+            }
+            if gv && got.value(r) != want.value(r) {
+                let msg = format!(
+                    "mask differs at row {} of {}: compiled {} interpreted {} ; predicate {} ; row {}",
+                    r,
+                    c.len,
+                    got.value(r),
+                    want.value(r),
+                    expr,
+                    describe_row(&c.pred, &c.cols, r)
+                );
+                if row_arith_nan(&c.pred, &row_at(r)) {
+                    if known.as_ref().map(|k| k.0 != KF_NANSIGN).unwrap_or(true) {
+                        known = Some((KF_NANSIGN, msg));
+                    }
+                } else if row_float_ambiguous(&c.pred, &row_at(r)) {
+                    known.get_or_insert((KF_FLOAT, msg));
+                } else {
+                    return Verdict::Fail(msg);
+                }
+            }
+        }
+        if let Some((id, msg)) = known {
+            obs.label(format!("hit:{}", id));
+            if std::env::var("VERIF_STRICT_KNOWN").is_ok() {
+                return Verdict::Fail(msg);
+            }
+            return Verdict::Known { id: id.into(), msg };
+        }
+        Verdict::Pass
+    }
+}
+
+// ---------------------------------------------------------------------------
+// check 2: QE_COMPILE=0 worker vs default worker
+// ---------------------------------------------------------------------------
+#[derive(Clone, Debug, Serialize, Deserialize)]
+pub struct SwitchCase {
+    pub preds: Vec<E>,
+    pub cols: Vec<ColData>,
+    pub len: usize,
+    /// memory-table batch cut / parquet row-group size
+    pub chunk: usize,
+}
+
+#[derive(Serialize, Deserialize, Debug, Clone, PartialEq)]
+pub struct WorkerOut {
+    /// QE_COMPILE as seen by the worker
+    pub qe_compile: Option<String>,
+    /// per predicate: did CompiledPredicate::compile accept it in this process
+    pub compiled: Vec<bool>,
+    /// per predicate, per path ("filter_exec", "sql_mem", "sql_parquet"): rows or error text
+    pub results: Vec<Vec<(String, Result<Vec<Vec<Value>>, String>)>>,
+}
+
+fn switch_table(c: &SwitchCase) -> Table {
+    let mut cols = vec![data::Column { name: "rid".into(), ty: ColType::Int }];
+    for (n, t) in COLS.iter() {
+        cols.push(data::Column {
+            name: n.to_string(),
+            ty: match t {
+                Ty::F64 => ColType::Double,
+                Ty::I64 => ColType::Int,
+                Ty::I32 => ColType::Int32,
+                Ty::Date => ColType::Date,
+            },
+        });
+    }
+    let rows = (0..c.len)
+        .map(|r| {
+            let mut row = vec![Value::Int(r as i64)];
+            for (ci, (_, t)) in COLS.iter().enumerate() {
+                row.push(match (t, c.cols[ci].at(r)) {
+                    (_, None) => Value::Null,
+                    (Ty::F64, Some(b)) => Value::Double(f64::from_bits(b as u64)),
+                    (Ty::I64, Some(x)) => Value::Int(x),
+                    (Ty::I32, Some(x)) => Value::Int(x as i32 as i64),
+                    (Ty::Date, Some(x)) => Value::Date(x as i32),
+                });
+            }
+            row
+        })
+        .collect();
+    Table { name: "t".into(), cols, rows }
+}
+
+/// Worker entry: `check --worker c06 <casefile>`; prints one JSON WorkerOut line.
+pub fn worker(args: &[String]) {
+    let path = args.first().expect("c06 worker: case file");
+    let text = std::fs::read_to_string(path).expect("read case file");
+    let c: SwitchCase = serde_json::from_str(&text).expect("parse case file");
+    std::panic::set_hook(Box::new(|_| {}));
+    let out = worker_run(&c, std::path::Path::new(path).parent().unwrap());
+    println!("{}", serde_json::to_string(&out).unwrap());
+}
+
+fn worker_run(c: &SwitchCase, dir: &std::path::Path) -> WorkerOut {
+    let t = switch_table(c);
+    let chunk = c.chunk.max(1);
+    let cuts: Vec<usize> = (1..).map(|k| k * chunk).take_while(|x| *x < c.len).take(64).collect();
+    let mut mem = query_engine::ExecutionContext::new();
+    engine::register_mem(&mut mem, &t, &cuts);
+    let mut pq = query_engine::ExecutionContext::new();
+    let layout = data::ParquetLayout { file_cuts: vec![c.len / 2], row_group_size: chunk, stats: 1, dictionary: false };
+    let pq_ok = engine::register_parquet(&mut pq, &t, &dir.join("pq"), &layout);
+    let batches = t.batches(&cuts);
+    let schema = t.schema();
+    let mut compiled = vec![];
+    let mut results = vec![];
+    for p in &c.preds {
+        let expr = to_expr(p, 0);
+        compiled.push(CompiledPredicate::compile(&expr, &schema).is_some());
+        let mut per = vec![];
+        // (1) FilterExec over a memory scan, predicate handed over as built
+        let fe = std::panic::catch_unwind(std::panic::AssertUnwindSafe(|| {
+            let scan = Arc::new(MemoryTableExec::new("t", schema.clone(), batches.clone(), None));
+            let f: Arc<dyn PhysicalOperator> = Arc::new(FilterExec::new(scan, expr.clone()));
+            engine::execute_physical(&f)
+        }))
+        .unwrap_or_else(|p| Err(format!("PANIC: {}", engine::panic_text(p))));
+        per.push(("filter_exec".to_string(), fe));
+        if let Some(sql) = to_sql(p) {
+            let q = format!("SELECT * FROM t WHERE {}", sql);
+            per.push(("sql_mem".to_string(), engine::run_sql(&mem, &q)));
+            if pq_ok.is_ok() {
+                per.push(("sql_parquet".to_string(), engine::run_sql(&pq, &q)));
+            }
+        }
+        results.push(per);
+    }
+    WorkerOut { qe_compile: std::env::var("QE_COMPILE").ok(), compiled, results }
+}
+
+fn spawn_worker(casefile: &std::path::Path, compile_off: bool) -> Result<WorkerOut, String> {
+    let exe = std::env::current_exe().map_err(|e| e.to_string())?;
+    let mut cmd = std::process::Command::new(exe);
+    cmd.arg("--worker").arg("c06").arg(casefile);
+    cmd.env_remove("QE_COMPILE");
+    if compile_off {
+        cmd.env("QE_COMPILE", "0");
+    }
+    let out = cmd.output().map_err(|e| format!("spawn: {}", e))?;
+    if !out.status.success() {
+        return Err(format!(
+            "worker exit {:?}: {}",
+            out.status.code(),
+            String::from_utf8_lossy(&out.stderr).chars().take(400).collect::<String>()
+        ));
+    }
+    let text = String::from_utf8_lossy(&out.stdout);
+    let line = text.lines().rev().find(|l| l.starts_with('{')).ok_or("worker printed no JSON")?;
+    serde_json::from_str(line).map_err(|e| format!("worker JSON: {}", e))
+}
+
+pub struct Switch;
+impl Check for Switch {
+    type Case = SwitchCase;
+    fn name(&self) -> &'static str {
+        "qe_compile_switch"
+    }
+    fn rule(&self) -> &'static str {
+        "the default worker compiled at least one of the predicates (the QE_COMPILE=0 worker none), a referenced column holds NULL or a float special, and at least one path returned some but not all rows"
+    }
+    fn cases(&self, tier: Tier) -> u32 {
+        tier.pick(40, 3000)
+    }
+    fn workers(&self, _t: Tier) -> usize {
+        8
+    }
+    fn max_shrink_iters(&self) -> u32 {
+        30
+    }
+    fn strategy(&self, tier: Tier) -> BoxedStrategy<SwitchCase> {
+        self.strategy_inner(tier)
+    }
+    fn test(&self, c: &SwitchCase, obs: &mut Obs) -> Verdict {
+        switch_test(c, obs)
+    }
+}
+impl Switch {
+    fn strategy_inner(&self, tier: Tier) -> BoxedStrategy<SwitchCase> {
+        prop_oneof![8 => Just(false), 2 => Just(true)]
+            .prop_flat_map(move |special| {
+                let p = Prof { special, wide: false };
+                (
+                    proptest::collection::vec(pred(2, p), 3..7),
+                    all_cols(p),
+                    prop_oneof![
+                        2 => 0usize..40,
+                        1 => Just(1025usize),
+                        1 => 1000usize..tier.pick(2100, 9000),
+                    ],
+                    prop_oneof![Just(1usize), Just(7), Just(100), Just(1024), Just(8192)],
+                )
+            })
+            .prop_map(|(preds, cols, len, chunk)| SwitchCase { preds, cols, len, chunk })
+            .boxed()
+    }
+}
+fn switch_test(c: &SwitchCase, obs: &mut Obs) -> Verdict {
+    {
+        if c.cols.len() != COLS.len() {
+            return Verdict::Discard("case has wrong column count".into());
+        }
+        let tmp = TempDir::new("c06");
+        let casefile = tmp.path().join("case.json");
+        std::fs::write(&casefile, serde_json::to_string(c).unwrap()).expect("write case file");
+        // separate directories so the two workers do not share parquet files
+        let d_off = tmp.path().join("off");
+        let d_on = tmp.path().join("on");
+        std::fs::create_dir_all(&d_off).unwrap();
+        std::fs::create_dir_all(&d_on).unwrap();
+        std::fs::copy(&casefile, d_off.join("case.json")).unwrap();
+        std::fs::copy(&casefile, d_on.join("case.json")).unwrap();
+        let off = match spawn_worker(&d_off.join("case.json"), true) {
+            Ok(o) => o,
+            Err(e) => return Verdict::Discard(format!("worker(QE_COMPILE=0) infrastructure: {}", e.chars().take(80).collect::<String>())),
+        };
+        let on = match spawn_worker(&d_on.join("case.json"), false) {
+            Ok(o) => o,
+            Err(e) => return Verdict::Discard(format!("worker(default) infrastructure: {}", e.chars().take(80).collect::<String>())),
+        };
+        if off.qe_compile.as_deref() != Some("0") || on.qe_compile.is_some() {
+            return Verdict::Discard("workers did not see the intended QE_COMPILE".into());
+        }
+        if off.compiled.iter().any(|b| *b) {
+            return Verdict::Fail("QE_COMPILE=0 worker still compiled a predicate (switch ineffective)".into());
+        }
+        let any_compiled = on.compiled.iter().any(|b| *b);
+        let mut partial = false;
+        let mut known: Option<(&'static str, String)> = None;
+        for (pi, p) in c.preds.iter().enumerate() {
+            let (ro, rn) = (&off.results[pi], &on.results[pi]);
+            if ro.len() != rn.len() {
+                return Verdict::Fail(format!("workers ran different paths for predicate {}", pi));
+            }
+            for ((path, a), (_, b)) in ro.iter().zip(rn.iter()) {
+                obs.label(format!("path:{}", path));
+                match (a, b) {
+                    (Ok(ra), Ok(rb)) => {
+                        if !ra.is_empty() && ra.len() < c.len {
+                            partial = true;
+                        }
+                        if data::multiset_eq(ra, rb, 0.0) {
+                            continue;
+                        }
+                        // rows present in one answer only, by rid
+                        let ids = |rows: &Vec<Vec<Value>>| -> std::collections::BTreeSet<i64> {
+                            rows.iter()
+                                .filter_map(|r| match r.first() {
+                                    Some(Value::Int(i)) => Some(*i),
+                                    _ => None,
+                                })
+                                .collect()
+                        };
+                        let (ia, ib) = (ids(ra), ids(rb));
+                        let diff: Vec<i64> = ia.symmetric_difference(&ib).cloned().collect();
+                        let msg = format!(
+                            "path {}: SELECT * FROM t WHERE {} returns {} rows with QE_COMPILE=0 and {} rows by default; rids only in one answer: {:?} ; first differing row: {}",
+                            path,
+                            to_expr(p, 0),
+                            ra.len(),
+                            rb.len(),
+                            diff.iter().take(8).collect::<Vec<_>>(),
+                            diff.first().map(|r| describe_row(p, &c.cols, *r as usize)).unwrap_or_default()
+                        );
+                        let cols = &c.cols;
+                        let sound_ids = !diff.is_empty() && ra.len() == ia.len() && rb.len() == ib.len();
+                        let nan_sign = |r: usize| r < c.len && row_arith_nan(p, &move |ci: u8| cols[ci as usize].at(r));
+                        let ambiguous = |r: usize| r < c.len && row_float_ambiguous(p, &move |ci: u8| cols[ci as usize].at(r));
+                        if sound_ids && diff.iter().all(|r| nan_sign(*r as usize) || ambiguous(*r as usize)) {
+                            let id = if diff.iter().any(|r| nan_sign(*r as usize)) { KF_NANSIGN } else { KF_FLOAT };
+                            if known.as_ref().map(|k| k.0 != KF_NANSIGN).unwrap_or(true) {
+                                known = Some((id, msg));
+                            }
+                        } else {
+                            return Verdict::Fail(msg);
+                        }
+                    }
+                    (Err(ea), Err(_)) => {
+                        obs.label(format!("both-error:{}:{}", path, ea.chars().take(40).collect::<String>()));
+                    }
+                    (Ok(ra), Err(e)) => {
+                        return Verdict::Fail(format!(
+                            "path {}: WHERE {} returns {} rows with QE_COMPILE=0 but fails by default: {}",
+                            path,
+                            to_expr(p, 0),
+                            ra.len(),
+                            e
+                        ))
+                    }
+                    (Err(e), Ok(rb)) => {
+                        return Verdict::Fail(format!(
+                            "path {}: WHERE {} returns {} rows by default but fails with QE_COMPILE=0: {}",
+                            path,
+                            to_expr(p, 0),
+                            rb.len(),
+                            e
+                        ))
+                    }
+                }
+            }
+        }
+        let mut used = vec![];
+        for p in &c.preds {
+            collect_cols(p, &mut used);
+        }
+        let special = used.iter().any(|ci| {
+            (0..c.len.min(320)).any(|r| is_special_cell(COLS[*ci as usize].1, c.cols[*ci as usize].at(r)))
+        });
+        if any_compiled {
+            obs.label("default-worker-compiled");
+        }
+        obs.nontrivial(any_compiled && special && partial);
+        if let Some((id, msg)) = known {
+            obs.label(format!("hit:{}", id));
+            return Verdict::Known { id: id.into(), msg };
+        }
+        Verdict::Pass
+    }
+}
+
+/// development aid: VERIF_ONLY_CHECK=<name> runs a single check of the property
+fn only(v: Vec<Box<dyn DynCheck>>) -> Vec<Box<dyn DynCheck>> {
+    match std::env::var("VERIF_ONLY_CHECK") {
+        Ok(n) if v.iter().any(|c| c.name() == n) => v.into_iter().filter(|c| c.name() == n).collect(),
+        _ => v,
+    }
+}
 
 pub fn property() -> Property {
-    Property { id: "C06", level: "exploration", assumptions: &[], checks: vec![] }
+    Property {
+        id: "C06",
+        level: "exploration",
+        assumptions: &[
+            "equality is logical: validity equal at every row and value equal at every valid row (value bits under a NULL are not observable)",
+            "expressions are generated inside the subset compile() accepts; compile()==None / evaluate()==None cases are counted as trivial",
+            "the QE_COMPILE differential compares row multisets of SELECT * (row order is not part of the property)",
+        ],
+        checks: only(vec![Box::new(Mask), Box::new(Switch)]),
+    }
 }
